@@ -8,7 +8,7 @@ property:
   django:   the component template sees the surrounding variables under its own data; fill content sees the component's data
             over the bindings between tag and fill over the outer variables;
 and in both modes the caller's Context is left exactly as found.
-Known finding F-C03a (isolated: a component rendered inside {% for %} sees the loop variables) is tagged by the harness."""
+Known finding F-C03a (isolated: a component rendered inside {% for %} sees the loop variable) is modelled exactly: a disagreement is tagged only when the output equals the reference WITH that one leak."""
 import itertools
 import os
 import sys
@@ -41,23 +41,25 @@ def ev(expr, env):
     return expr[1:-1] if expr.startswith("'") else env.get(expr, "")
 
 
-def interp(nodes, env, mode, between=None):
+def interp(nodes, env, mode, between=None, leak_loop=False):
     """env: what is visible here.  between: bindings made since the innermost enclosing {% component %} tag (for django mode)"""
     out = []
     for n in nodes:
         if n[0] == "print":
             out.append(show(env))
         elif n[0] == "with":
-            out.append(interp(n[3], dict(env, **{n[1]: n[2]}), mode))
+            out.append(interp(n[3], dict(env, **{n[1]: n[2]}), mode, leak_loop=leak_loop))
         elif n[0] == "for":
             for v in "pq":
-                out.append(interp(n[1], dict(env, i=v), mode))
+                out.append(interp(n[1], dict(env, i=v), mode, leak_loop=leak_loop))
         elif n[0] == "comp":
             x = ev(n[1], env)
             data = {"x": x}
             inner = dict(data) if mode == "isolated" else dict(env, **data)
             if mode == "isolated":
                 inner.pop("d.v", None)
+                if leak_loop and "i" in env:
+                    inner["i"] = env["i"]       # exactly what the known finding F-C03a lets through: the loop variable
             if n[2] is None:
                 slot = "D" + show(inner)
             else:
@@ -66,7 +68,7 @@ def interp(nodes, env, mode, between=None):
                 fill_env = dict(env) if mode == "isolated" else dict(env, **data)
                 if len(n) > 3 and n[3]:
                     fill_env["d.v"] = x          # the slot passes v=x; the alias `d` exposes it to THIS fill only
-                slot = interp(n[2], fill_env, mode)
+                slot = interp(n[2], fill_env, mode, leak_loop=leak_loop)
             out.append("<S>" + show(inner) + "|" + slot + "</S>")
     return "".join(out)
 
@@ -93,6 +95,11 @@ def pages(depth):
         yield [("with", "a", "WA2", [c])]
         yield [("with", "x", "WX2", [c])]
         yield [("for", [c])]
+    # two wrappers around the tag (a binding made INSIDE a loop, a loop inside a binding)
+    for c in comps(0):
+        yield [("for", [("with", "b", "WB3", [c])])]
+        yield [("for", [("with", "a", "WA3", [c])])]
+        yield [("with", "b", "WB4", [("for", [c])])]
 
 
 def _in_for(nodes, inside=False):
@@ -139,14 +146,15 @@ def worker(job):
             except Exception as e:      # noqa: BLE001
                 got = f"{type(e).__name__}: {e}"[:160]
             want = interp(prog, dict(outer), mode)
+            want_known = interp(prog, dict(outer), mode, leak_loop=True)
             rec = None
             if got != want:
                 rec = {"input": {"mode": mode, "page": page_src(prog), "context": outer}, "clause": "what the component template / the fill content can see", "expected": want, "observed": got}
             elif [dict(d) for d in ctx.dicts] != before:
                 rec = {"input": {"mode": mode, "page": page_src(prog), "context": outer}, "clause": "the caller's Context is left as found", "expected": str(before), "observed": str([dict(d) for d in ctx.dicts])}
             if rec is not None and len(fails) < 300:
-                if mode == "isolated" and rec["clause"].startswith("what") and _in_for(prog):
-                    rec["known_finding"] = "F-C03a-page"
+                if mode == "isolated" and rec["clause"].startswith("what") and got == want_known:
+                    rec["known_finding"] = "F-C03a-page"      # exactly the loop variable, nothing else
                 fails.append(rec)
     return {"n": n, "fails": fails}
 
